@@ -11,14 +11,7 @@ ASSUMPTIONS = ["ContextResults are built directly (stream_id, CallResults, subse
                "stream front ends build them; an absent axis is the empty array the streams pass"]
 
 
-def sig_no_axes(f):
-    """F11: list form raises when a context carries no axis arrays"""
-    c = f.get("case", {})
-    return (f.get("function", "").startswith("collect_results") and c.get("how") == "list"
-            and str(f.get("impl", "")).startswith("R:") and any(not r["axes"] for r in c.get("rs", [])))
-
-
-SIGNATURES = {"collect_list_without_axes_raises": sig_no_axes}
+SIGNATURES = {}
 
 
 def run(ctx):
